@@ -180,6 +180,27 @@ def vr_obl(op, slew=None, difbits=20, timeout=400, tiers=('quick', 'thorough')):
                funcs=['vr32.c:set_step_step', 'vr32.c:set_step', 'vr32.c:poly_fir_u', 'vr32.c:poly_fir_d'])
 
 
+VR_SWITCH_REPL = ['poly_fir_fade_d:vf_fade_kernel_none', 'poly_fir_fade_u:vf_fade_kernel_none', 'poly_fir_d:vf_kernel_none', 'poly_fir_u:vf_kernel_none',
+                  'double_fir0:vf_fir_data_only', 'double_fir1:vf_fir_data_only', 'half_fir:vf_fir_data_only', 'fast_half_fir:vf_fir_data_only']
+
+
+def vr_switch_obl(direction, timeout=600):
+    """the stage-switch block of the real vr_process (stage 0 <-> stage -1), path-wise symbolic execution"""
+    instr = []
+    for r in VR_SWITCH_REPL:
+        instr += ['--replace-calls', r]
+    return Obl(name='vr_stage_switch_%s' % ('up' if direction else 'down'), src='vr_step.c', defs=['-DVF_OP=3', '-DVF_DIR=%d' % direction], unwind=300, timeout=timeout,
+               ndebug=False, instrument=instr, extra=['--paths', 'lifo'], slice=False, checks='full',
+               desc='vr32.c vr_process: one real call in which the slewing ratio crosses the octave boundary %s (stage %s): after the switch the fade-in and '
+                    'fade-out streams run at the same instantaneous ratio, slew at the same rate and read the same input instant; no undefined shift / overflow in the rescaling'
+                    % (('upwards', '-1 -> 0') if direction else ('downwards', '0 -> -1')),
+               bounds='engine state constructed directly (one decimation stage; 272 buffered input samples); step anywhere in the octave being left, |step_step| < 2^20, '
+                      'position < 8 samples, remaining slew length 1000; cbmc --paths lifo (every path decided by the SAT solver)',
+               stubs=['goto-instrument --replace-calls: the four resampling kernels produce no frame in this call (the state asserted is the one the switch block leaves); '
+                      'half-band FIR dot products return 0 (data only)', 'coefficient tables not initialised (data only)'],
+               funcs=['vr32.c:vr_process', 'vr32.c:do_input_stage', 'vr32.c:enter_new_stage', 'fifo.h:fifo_reserve', 'fifo.h:fifo_read', 'fifo.h:fifo_trim_by'])
+
+
 PLAN_OPS = {0: 'set_dft_length', 1: 'dft_stage_init', 2: 'init_validation', 3: 'halving_loop'}
 PLAN_STUBS = ['log(): log2 bracket floor(log2 x) <= r < floor(log2 x)+1 (only used as log(a)/log(2))', 'lsx_design_lpf / lsx_fir_to_phase: any length <= 33 of the forced residue class, any peak position',
               'rdft_cb: set-up functions check the documented pffft precondition; transforms are no-ops']
